@@ -87,6 +87,11 @@ fn run_case(case: &Value, variation: u64, vbp: &Path, scratch: &Path) -> Vec<Pro
     }
     let c = |k: &str| cfg[k].as_str();
     let out = &case["out"];
+    // extension X03: the buildpack is built with libcnb's `trace` feature; its telemetry goes to a
+    // fixed directory keyed by the buildpack id, so every run gets an id of its own
+    let telemetry = std::env::var_os("VERIF_TELEMETRY_VBP").is_some();
+    static RUN_NO: std::sync::atomic::AtomicUsize = std::sync::atomic::AtomicUsize::new(0);
+    let bp_id = if telemetry { format!("verif/t{}-{}", std::process::id(), RUN_NO.fetch_add(1, std::sync::atomic::Ordering::SeqCst)) } else { "verif/vbp".to_string() };
     let tmp = tempfile::tempdir_in(scratch).unwrap();
     let t = tmp.path().canonicalize().unwrap();
     let (bp, app, layers, platform, vout) = (t.join("bp dir"), t.join("app"), t.join("layers"), t.join("platform"), t.join("vout"));
@@ -102,7 +107,7 @@ fn run_case(case: &Value, variation: u64, vbp: &Path, scratch: &Path) -> Vec<Pro
     let style = r.u64(..);
     match c("desc") {
         "ok" | "otherapi" => {
-            let mut s = format!("api = \"{}\"\n\n[buildpack]\nid = \"verif/vbp\"\nversion = \"1.2.3\"\nname = \"V b p\"\n\n[[targets]]\nos = \"linux\"\narch = \"amd64\"\n\n", if c("desc") == "ok" { "0.10" } else { "0.9" });
+            let mut s = format!("api = \"{}\"\n\n[buildpack]\nid = \"{bp_id}\"\nversion = \"1.2.3\"\nname = \"V b p\"\n\n[[targets]]\nos = \"linux\"\narch = \"amd64\"\n\n", if c("desc") == "ok" { "0.10" } else { "0.9" });
             emit_table(&["metadata".to_string()], &desc_md, style, &mut s);
             fs::write(bp.join("buildpack.toml"), s).unwrap();
         }
@@ -218,8 +223,49 @@ fn run_case(case: &Value, variation: u64, vbp: &Path, scratch: &Path) -> Vec<Pro
         "nonutf8" => { cmd.env("CNB_TARGET_ARCH_VARIANT", OsString::from_vec(b"v\xff8".to_vec())); }
         _ => {}
     }
+    // X03: the telemetry file of this buildpack id and phase already holds a line of an earlier run
+    let phase = match c("exe") { "detect" => Some("detect"), "build" => Some("build"), _ => None };
+    let tfile = |ph: &str| PathBuf::from("/tmp/libcnb-telemetry").join(format!("{}-{ph}.jsonl", bp_id.replace(['/', '.', '-'], "_")));
+    if telemetry {
+        cmd.env("VBP_NO_DECOY", "1");   // tracing installs a process-global subscriber: one invocation per process
+        fs::create_dir_all("/tmp/libcnb-telemetry").unwrap();
+        if let Some(ph) = phase { fs::write(tfile(ph), "{\"earlier\":\"run\"}\n").unwrap(); }
+    }
     let output = cmd.output().expect("spawn vbp");
     let code = output.status.code();
+    let mut tproblems: Vec<String> = vec![];
+    if telemetry {
+        let want = out["telemetry"].as_str().unwrap_or("none");
+        for ph in ["detect", "build"] {
+            let text = fs::read_to_string(tfile(ph)).unwrap_or_default();
+            let _ = fs::remove_file(tfile(ph));
+            let lines: Vec<&str> = text.lines().collect();
+            if Some(ph) != phase {
+                if !lines.is_empty() { tproblems.push(format!("telemetry for phase {ph} although the executable ran as {}", c("exe"))); }
+                continue;
+            }
+            if lines.first().copied() != Some("{\"earlier\":\"run\"}") { tproblems.push("the telemetry of an earlier run was not kept (the file must be appended to)".into()); }
+            let new = &lines[1.min(lines.len())..];
+            if want == "none" {
+                if !new.is_empty() { tproblems.push(format!("{} telemetry line(s) although the phase never began", new.len())); }
+                continue;
+            }
+            if new.len() != 1 { tproblems.push(format!("{} telemetry line(s) for one {ph} run, the specification says exactly one ({want})", new.len())); continue; }
+            let line = new[0];
+            let outcome = match want { "passed" => "libcnb-detect-passed".to_string(), "failed" => "libcnb-detect-failed".to_string(), "success" => "libcnb-build-success".to_string(), _ => format!("libcnb-{ph}-error") };
+            match serde_json::from_str::<Value>(line) {
+                Err(e) => tproblems.push(format!("telemetry line is not JSON: {e}")),
+                Ok(v) => {
+                    let spans: Vec<&Value> = v["resourceSpans"].as_array().into_iter().flatten().flat_map(|rs| rs["scopeSpans"].as_array().into_iter().flatten()).flat_map(|ss| ss["spans"].as_array().into_iter().flatten()).collect();
+                    if spans.len() != 1 || spans[0]["name"] != format!("libcnb-{ph}").as_str() { tproblems.push(format!("expected exactly one span libcnb-{ph}, found {:?}", spans.iter().map(|s| s["name"].clone()).collect::<Vec<_>>())); }
+                    let events: Vec<String> = spans.iter().flat_map(|s| s["events"].as_array().into_iter().flatten()).map(|e| e["name"].as_str().unwrap_or("?").to_string()).collect();
+                    let outcomes: Vec<&String> = events.iter().filter(|e| e.starts_with("libcnb-")).collect();
+                    if outcomes != vec![&outcome] { tproblems.push(format!("outcome events {outcomes:?}, the specification says [{outcome}] (exit {code:?})")); }
+                    if !line.contains(&bp_id) || !line.contains("1.2.3") { tproblems.push("the telemetry record does not carry the buildpack id and version".into()); }
+                }
+            }
+        }
+    }
     let count = |m: &str| fs::read_to_string(vout.join(format!("{m}.called"))).map(|s| s.lines().count()).unwrap_or(0);
     let (n_detect, n_build, n_err) = (count("detect"), count("build"), count("on_error"));
 
@@ -230,6 +276,12 @@ fn run_case(case: &Value, variation: u64, vbp: &Path, scratch: &Path) -> Vec<Pro
         LAST_OUTPUTS.with(|l| *l.borrow_mut() = Some(snap));
     }
     let mut problems = vec![];
+    // (the one known finding of C06 - a non-UTF-8 arch variant is treated as absent - also changes
+    //  what the run reports about itself; it is C06's business, not the telemetry's)
+    if consulted.contains("t_variant") && c("t_variant") == "nonutf8" { tproblems.clear(); }
+    for p in tproblems {
+        problems.push(Problem { prop: "X03", sig: format!("telemetry exe={} want={}: {}", c("exe"), out["telemetry"].as_str().unwrap_or("none"), p.split(',').next().unwrap_or("").chars().take(60).collect::<String>()), detail: p });
+    }
     if String::from_utf8_lossy(&output.stderr).contains("HARNESS:") {
         problems.push(Problem { prop: "C06", sig: "HARNESS: decoy invocation".into(), detail: String::from_utf8_lossy(&output.stderr).lines().find(|l| l.contains("HARNESS:")).unwrap_or("").to_string() });
     }
@@ -346,7 +398,7 @@ fn run_case(case: &Value, variation: u64, vbp: &Path, scratch: &Path) -> Vec<Pro
                 let want_env: Vec<(String, String)> = expected_env.iter().map(|(k, v)| (hex(k), hex(v))).collect();
                 if ctx["env"] != json!(want_env) { p6(format!("platform env: context has {} entries {:?}, the platform directory holds {:?}", ctx["env"].as_array().map_or(0, Vec::len), ctx["env"], want_env)); }
                 let d = &ctx["descriptor"];
-                if d["id"] != "verif/vbp" || d["version"] != "1.2.3" || d["name"] != "V b p" || d["api"] != "0.10" { p6(format!("descriptor: context has {d}")); }
+                if d["id"] != bp_id.as_str() || d["version"] != "1.2.3" || d["name"] != "V b p" || d["api"] != "0.10" { p6(format!("descriptor: context has {d}")); }
                 let want_md = if desc_md["t"].as_object().unwrap().is_empty() { vec![Value::Null, desc_md.clone()] } else { vec![desc_md.clone()] };
                 if !want_md.contains(&d["metadata"]) { p6(format!("descriptor metadata: context has {}, buildpack.toml says {}", d["metadata"], desc_md)); }
                 if c("exe") == "build" {
@@ -377,7 +429,7 @@ fn main() {
     let variations: u64 = std::env::var("VERIF_VARIATIONS").ok().and_then(|s| s.parse().ok()).unwrap_or(2);
     let scratch = PathBuf::from(std::env::var("VERIF_SCRATCH").unwrap_or_else(|_| "/dev/shm/verif-scratch".into()));
     fs::create_dir_all(&scratch).unwrap();
-    let vbp = std::env::current_exe().unwrap().parent().unwrap().join("vbp");
+    let vbp = std::env::var_os("VERIF_TELEMETRY_VBP").map_or_else(|| std::env::current_exe().unwrap().parent().unwrap().join("vbp"), PathBuf::from);
     let raw: Vec<Value> = if single { vec![serde_json::from_str(&fs::read_to_string(&input).unwrap()).unwrap()] } else { read_tlc_tagged(&input, "RP") };
     if args.get(2).map(String::as_str) == Some("--det") {
         // C20: every path that writes outputs, twice with identical inputs in two fresh processes
